@@ -125,7 +125,7 @@ def gen_lua_histories(ctx, n, maxops):
                 hs.append(H.gen_keyed_history(r, k, kind=kind, kt=H.TUP(H.STR, H.STR), strs=COLLIDE, preamble_only=True,
                                               geteq="any" if kind == "dict" else None, allow_collisions=True))
             else:
-                kt = r.choice(H.KEY_TYPES + [H.FLOAT])
+                kt = r.choice(H.KEY_TYPES + [H.FLOAT] + H.NESTED_KEY_TYPES)
                 hs.append(H.gen_keyed_history(r, k, kind=kind, kt=kt, strs=strs, preamble_only=True,
                                               geteq="any" if kind == "dict" else None, allow_collisions=True))
     return hs
@@ -193,7 +193,8 @@ def gen_e2e(ctx, nprog, maxops, ntrigger, salt="c18-e2e"):
             out.append((H.gen_list_history(r, k, geteq="any", negative_set=True), "clean"))
         else:
             kind = "dict" if x == 1 else "set"
-            kt = r.choice([H.INT, H.STR, H.TUP(H.INT, H.INT), H.STR, H.TUP(H.INT, H.STR), H.FLOAT, H.TUP(H.STR, H.STR)])
+            kt = r.choice([H.INT, H.STR, H.TUP(H.INT, H.INT), H.STR, H.TUP(H.INT, H.STR), H.FLOAT, H.TUP(H.STR, H.STR)]
+                          + H.NESTED_KEY_TYPES)
             strs = COLLIDE if kt == H.TUP(H.STR, H.STR) else H.STRS_SAFE      # printed forms may coincide: keys must not
             out.append((H.gen_keyed_history(r, k, kind=kind, kt=kt, strs=strs, geteq="any" if kind == "dict" else None,
                                             allow_collisions=True), "clean"))
@@ -442,7 +443,7 @@ def tie(ctx):
     samples = [{"program": hist_program(h), "plain_model": flat_expected(h)[:12]} for h in hs]
     return {"name": "containers", "ok": not mism, "mismatches": mism[:10], "evaluations": n1 + n2, "distinct_nontrivial": nt,
             "rule": "(1) operation histories on lists (elements int, str, float, (int, str), (int, int)), dicts and sets (keys int, str, "
-                    "float, (int, int), (str, str), (int, str); values int, str, (int, int)) performed through the functions of the "
+                    "float, (int, int), (str, str), (int, str), nested tuples up to depth 3 with keys that differ in one leaf; values int, str, (int, int), bool, float) performed through the functions of the "
                     "real preamble.lua under LuaCore and through the extracted Runtime model, every observation and (for lists) the "
                     "printed list after every operation compared; plus div / sign / floor / rem / __INDEX calls; (2) Sylt programs "
                     "(std bundled) that run a history and print every observation, compiled by the real compiler, run by LuaCore, "
